@@ -77,8 +77,17 @@ def streams(seed, tier):
             for b in ["A", "", "B", "same"]:
                 cases.append(mk(rng.randrange(2), nm, True, name=[b, a]))
         cases += [mk(0, nm, True, name=["x"]), mk(0, nm, False)]
+        # long operands (also multi-byte): the result's length at / around powers of two
+        for unit in ["a", "ab", "\u00e9", "\u65e5\u672c", "x\u00e9"]:
+            for total in [255, 256, 1023, 1024, 1025, 2047, 4095, 4096, 4097, 8193, 16385]:
+                ub = len(unit.encode())
+                la = rng.randrange(0, total // ub + 1)
+                a = (unit * (la + 1))[:la]
+                b = (unit * (total // ub + 2))[:max(0, (total - len(a.encode()) - 1) // ub + rng.randrange(0, 2))]
+                cases.append(mk(rng.randrange(2), nm, True, name=[b, a]))
+                cases.append(mk(rng.randrange(2), nm, False, name=[a + a, a + a]))
     out.append(Stream("scalar-by-name", "run", "scalar.check", cases,
-                      "every scalar instruction driven by NAME through the interpreter: boundary pool x boundary pool + random operands, deeper stacks beneath, missing-operand cases, both profiles"))
+                      "every scalar instruction driven by NAME through the interpreter: boundary pool x boundary pool + random operands, deeper stacks beneath, missing-operand cases, NAME operands up to 16 KiB incl. multi-byte characters, both profiles"))
     return out
 
 
